@@ -598,6 +598,25 @@ def _geometry(draw, conv, **kw):
     raise ValueError(conv)
 
 
+def without_clashing_extra(spec):
+    """For sub-checks that swap the mesh encoding of a finished spec: an extra dimension (or a
+    picked one) must not bear the name of one of the mesh's own dimensions."""
+    if spec["conv"] != "ugrid":
+        return spec
+    taken = set(spec["geom"]["enc"]["dims"].values())
+    clash = [d for d in spec.get("extra", {}) if d in taken]
+    for d in clash:
+        del spec["extra"][d]
+        for var in spec.get("vars", []):
+            var["dims"] = [x for x in var["dims"] if x != d]
+        if spec.get("pick"):
+            spec["pick"].pop(d, None)
+    for var in spec.get("vars", []):
+        if var.get("nan"):
+            var.pop("nan")          # (positions were drawn for the old shape)
+    return spec
+
+
 @st.composite
 def storage_options(draw, conv, with_vars=True):
     """How the arrays of a dataset are held, independent of what they mean: single precision
